@@ -76,8 +76,9 @@ def one(req: dict, variant: str) -> dict:
     _purge()
     import bitproto
 
-    if not (bitproto.__file__ or "").startswith("/repo/"):
-        from .simfs import HarnessError
+    from .simfs import REPO, HarnessError
+
+    if not (bitproto.__file__ or "").startswith(REPO + "/"):
 
         raise HarnessError("golden: bitproto imported from %r" % bitproto.__file__)
     top = tempfile.mkdtemp(prefix="verif-golden-")
